@@ -675,7 +675,7 @@ class Runner:
             i = o[1]
             try:
                 p = sim.particles[i]
-            except AttributeError:
+            except (AttributeError, IndexError):
                 if -n <= i < n:
                     self.fail("sim.particles[%d] raised for N=%d" % (i, n))
                 self.cls.add("invalid_index")
